@@ -54,6 +54,10 @@ func init() {
 	mutant(&Mutant{Name: "c16-nested-html-fresh-minifier", Property: "C16", File: "html/html.go",
 		Old: "if err := o.Minify(m, w, buffer.NewReader(t.Data[begin:end]), nil); err != nil {", New: "if err := (&Minifier{KeepSpecialComments: true}).Minify(m, w, buffer.NewReader(t.Data[begin:end]), nil); err != nil {",
 		Rule: "R16.4", Construct: "html/nested"})
+	mutant(&Mutant{Name: "c16-template-minifier-copied-before-parse", Property: "C16", File: "cmd/minify/main.go",
+		Old: "\tphpMinifier := htmlMinifier\n", New: "",
+		Old2: "\txmlMinifier := xml.Minifier{}\n", New2: "\txmlMinifier := xml.Minifier{}\n\tphpMinifier := htmlMinifier\n",
+		Rule: "R16.2", Construct: "copy phpMinifier"})
 	mutant(&Mutant{Name: "c16-xml-whitespace-trim", Property: "C16", File: "xml/xml.go",
 		Old: "\t\t\t\t\t\tif !o.KeepWhitespace {\n\t\t\t\t\t\t\tt.Data = t.Data[:len(t.Data)-1]\n\t\t\t\t\t\t\tomitSpace = false\n\t\t\t\t\t\t}", New: "\t\t\t\t\t\tt.Data = t.Data[:len(t.Data)-1]\n\t\t\t\t\t\tomitSpace = false",
 		Rule: "R16.3", Construct: "xml.KeepWhitespace"})
@@ -379,7 +383,7 @@ func (c *Ctx) r161() {
 
 func (c *Ctx) r162() {
 	const rule = "R16.2"
-	c.R.Rule(rule, "in cmd/minify.run every f.AddOpt(&v.Field, _, long, …) whose v is a local of type <pkg>.Minifier has long == <pkg>-<Field> up to dashes and case; each such v (or a copy of it) is registered with the registry by address; every exported field of the six Minifier structs has such a binding")
+	c.R.Rule(rule, "in cmd/minify.run every f.AddOpt(&v.Field, _, long, …) whose v is a local of type <pkg>.Minifier has long == <pkg>-<Field> up to dashes and case; each such v (or a copy of it) is registered with the registry by address; a value copy of such a v is taken only after f.Parse() (dominance in run's CFG); every exported field of the six Minifier structs has such a binding")
 	pk := c.pkg(rule, "cmd/minify")
 	if pk == nil {
 		return
@@ -451,8 +455,45 @@ func (c *Ctx) r162() {
 		return true
 	})
 	for o, pkgName := range vars {
-		c.R.Check(registered[o], rule, "main.run/"+pkgName+" options registered", "-", o.Name()+" is registered by address", "the option struct the flags write to ("+o.Name()+") is not the one registered with the minifier registry: flags have no effect")
+		c.R.Check(registered[o], rule, "main.run/"+pkgName+" options registered", "-", c.P.NameOf(o)+" is registered by address", "the option struct the flags write to ("+c.P.NameOf(o)+") is not the one registered with the minifier registry: flags have no effect")
 	}
+	// value copies of a flag-bound option struct see the flags only when they are taken after the command line was parsed
+	g := c.graph(pk, fd)
+	var parseN []*flow.Node
+	for _, y := range g.Nodes {
+		if a := y.Ast(); a != nil && y.Kind != flow.KRange && y.Kind != flow.KSelect && len(findCalls(info, a, false, "github.com/tdewolff/argp.(Argp).Parse")) > 0 {
+			parseN = append(parseN, y)
+		}
+	}
+	nCopies := 0
+	for _, y := range g.Nodes {
+		as, ok := y.Stmt.(*ast.AssignStmt)
+		if !ok || y.Kind != flow.KStmt || len(as.Lhs) != len(as.Rhs) {
+			continue
+		}
+		for i, r := range as.Rhs {
+			rid, isId := ast.Unparen(r).(*ast.Ident)
+			if !isId {
+				continue
+			}
+			pkgName, isBound := vars[info.Uses[rid]]
+			if !isBound {
+				continue
+			}
+			nCopies++
+			after := false
+			for _, pn := range parseN {
+				if g.Dominates(pn, y) {
+					after = true
+				}
+			}
+			c.R.Check(after, rule, "main.run/copy "+str(as.Lhs[i])+" of the "+pkgName+" options", c.pos(as), "taken after the command line was parsed", str(as.Lhs[i])+" is a value copy of "+rid.Name+" taken before f.Parse(): the --"+pkgName+"-* flags given on the command line are not in the copy (the minifier registered for template file types ignores them)")
+		}
+	}
+	if len(parseN) == 0 {
+		c.R.Unres(rule, "main.run/command line parsed", c.pos(fd), "call of (*argp.Argp).Parse not found")
+	}
+	c.R.Floor(rule, "copies of option structs", nCopies, 3)
 	// every exported field has a flag
 	for _, rel := range formatPkgs {
 		fp := c.P.Pkg(rel)
